@@ -42,9 +42,16 @@
    Pinned beyond the property statement (a mismatch on these is drift, not a violation):
      * who is unauthorized: another OPEN writer on that channel with a strictly higher
        authority (C05's rule; equal authorities are not used);
-     * DBClose only after every writer is closed (db.go: "if this method is called while
-       writers are still open ... a deadlock is caused"): named window
-       Window_CloseWithOpenWriters, checked separately;
+     * the moment a re-subscription takes effect (at the streamer goroutine's select, never
+       for a frame it already holds) and that a cancelled streamer may lose the frame it holds;
+     * a streamer's state names Init/Connecting/Running/Disconnecting/Draining/Closed.
+   Deviations of the code from the property, named (as-is windows):
+     * Window_CloseWithOpenWriters: DBClose while a stream-mode writer is open stops the delta
+       goroutine; the writer's bare send into the inlet then blocks forever (db.go documents it:
+       "if this method is called while writers are still open ... a deadlock is caused"). With the
+       window closed (DBClose only after every writer closed) every property below holds; with it
+       open TLC refutes WritersProgress. The real code is probed for it (known finding).
+   Outside the statement, modelled because the harness meets it:
      * a streamer still connected at DBClose is orphaned (its close blocks forever in
        delta.Disconnect): AllowOrphan; the property only speaks about writers;
      * a frame whose every series was excluded is still pushed (and filtered to nothing
